@@ -84,6 +84,7 @@ fn main() {
         "C09" => drive(&checks::dynamic::Dynamic { faults: true }, &opts),
         "C15" => drive(&checks::satobj::SatObj, &opts),
         "C16" => drive(&checks::exchange::Exchange, &opts),
+        "C17" => drive(&checks::faults::Faults, &opts),
         _ => {
             eprintln!("unknown property {}", id);
             2
